@@ -132,14 +132,22 @@ def expected_effects(v):
         if need(v.T("char_pred", "is_kar"), "whether the key is a vowel sign"):
             return kar_rules(v)
         if need(t_and(v.char_is(HASANTA), v.rmc_is(HASANTA)), "second hasanta"):
-            return [("push", ZWNJ)]
+            return [("push", ZWNJ)] + REST
         if need(t_and(v.char_is(LENGTH_MARK), v.rmc_is(HASANTA)), "AU length mark after hasanta"):
-            return [("pop",), ("push", OU)]
+            return [("pop",), ("push", OU)] + REST
     return [("push_str", "<value>")]
+
+
+# a rule that acts on the first character of the key value keeps whatever the value has after it (nothing, for a one-character value)
+REST = [("push_str", "<rest>")]
 
 
 def kar_rules(v):
     """The documented rules for a vowel sign (shared with the old-order rule list of C14, which falls through to them)."""
+    return _kar_rules(v) + REST
+
+
+def _kar_rules(v):
     marks, lit = v.rmc_in_marks()
     av = t_and(v.cfg("get_fixed_automatic_vowel"), t_or(v.T("buf_empty"), v.T("rmc_pred", "is_vowel"), marks))
     if need(av, "automatic vowel forming (option ∧ (start ∨ after vowel ∨ after punctuation))"):
